@@ -13,14 +13,16 @@ import systems  # noqa: E402
 
 sid = int(sys.argv[1]); npseed = int(sys.argv[2]); niter = int(sys.argv[3])
 rng = random.Random(sid)          # construction code is identical in every process
-if sid % 2 == 1:
+if sid % 4 == 2:
+    system, _ = systems.field_input_system(rng, name=f'h{sid}')
+elif sid % 2 == 1:
     system, _ = systems.random_loop_system(rng, size=2 + (sid // 2) % 2, name=f'h{sid}', extra=True)
 else:
     system, _ = systems.random_chain_system(rng, ncomp=2 + sid % 3, with_alpha=False, name=f'h{sid}')
 np.random.seed(npseed)
 xs = system.sample_inputs(5)
 system.fit(max_iter=niter, num_refine=20, max_tol=-1.0)
-xt = {k: np.linspace(0.1, 0.9, 4) for k in sorted(str(v) for v in system.inputs())}
+xt = system.sample_inputs(4)
 pred = system.predict(xt)
 out = {
     'components': [[[str(v) for v in c.inputs], [str(v) for v in c.outputs]] for c in system.components],
